@@ -48,7 +48,9 @@ func (m *RefShard) evalRankLeaf(qe QueryEnv, q models.Query) (QueryResult, error
 		contrib = func(d float64) float64 { return -w * d }
 		dim, metric, quant := vecIndexInfo(sv)
 		vm := vectorModeDump(dim, metric, quant, qe.Dump, indexBucketName(qe.Schema, q.Property))
-		if vm.Opaque || (vm.PQ != nil && vm.PQ.Problem != "") {
+		if vm.Opaque || vm.PQ != nil {
+			// composite score checks use one relative tolerance; product-quantised distances
+			// (sums over arbitrary float32 centroids) are judged by C03 / C04 only
 			res.Ambiguous = "product-quantised distances"
 		}
 		if pqCosineUntrained(metric, quant, vm) {
